@@ -633,6 +633,8 @@ theorem run_frame4 (cid : Nat) (c : Cfg) (e : Env) (s : State) : Frame4 s (run c
     | none => exact h1
     | some ctx =>
       dsimp only
+      split
+      · exact h1.trans (cancel_frame _ _ _ _ _).to4
       have h2 := startApps_frame4 cid e.blocked (order e.ps ctx.apps) [] s1
       generalize startApps cid e.blocked [] (order e.ps ctx.apps) s1 = r2 at h2
       obtain ⟨s2, b⟩ := r2
@@ -671,6 +673,8 @@ theorem run_ok {cid : Nat} {c : Cfg} {e : Env} {s s' : State} {o : Option Ctx}
     | some ctx =>
       obtain ⟨hc1, hc2⟩ := hc s1 ctx rfl
       dsimp only at h
+      split at h
+      · simp at h
       generalize h2 : startApps cid e.blocked [] (order e.ps ctx.apps) s1 = r2 at h
       obtain ⟨s2, b⟩ := r2
       cases b with
@@ -778,6 +782,11 @@ theorem run_err {cid : Nat} {c : Cfg} {e : Env} {s s' : State} {o : Option Ctx} 
     | some ctx =>
       obtain ⟨hc1, hc2⟩ := hc s1 ctx rfl
       dsimp only at h
+      split at h
+      · simp at h
+        obtain ⟨rfl, _, _⟩ := h
+        have hs := (cancel_frame cid ctx.cbs ctx.wkeys ctx.live s1).socks
+        exact ⟨(base1.mono (by simp)).socks_eq hs, fun _ => hs.trans h1.socks⟩
       have hf := own_startApps_fail e.blocked hb (order e.ps ctx.apps) [] s1 (by simpa using base1)
       have hfc := own_startApps_fail_clean e.blocked hb (order e.ps ctx.apps) [] s1
       generalize h2 : startApps cid e.blocked [] (order e.ps ctx.apps) s1 = r2 at h hf hfc
@@ -967,6 +976,8 @@ theorem run_accepted {cid : Nat} {c : Cfg} {e : Env} {s s' : State} {o : Option 
     | none => simp at h; rw [← h.2.2] at ha; cases ha
     | some ctx =>
       dsimp only at h
+      split at h
+      · simp at h; rw [← h.2.2] at ha; cases ha
       generalize startApps cid e.blocked [] (order e.ps ctx.apps) s1 = r2 at h
       obtain ⟨s2, b⟩ := r2
       cases b with
